@@ -213,8 +213,15 @@ def oracle_slowreply(d):
     if "error" in d:
         return ["harness: " + d["error"]]
     p = []
-    want_log = [l for l in d.get("log", []) if l.startswith("add:0:0:")]
-    if d["outcome"] != "returned" or d.get("value") is None:
+    unit = "kind=unit" in d.get("_args", [])
+    if d.get("finished_before_release"):
+        p.append("C01/C02: a call of a method that declares a return type%s returned while the actor was still busy with an earlier call - before the method was executed "
+                 "(a later call of the same caller could observe the state without it)" % (" (`-> ()`)" if unit else ""))
+    want_log = [l for l in d.get("log", []) if l.startswith("unit:0:0" if unit else "add:0:0:")]
+    if unit:
+        if d["outcome"] != "returned" or not want_log:
+            p.append("C01/C03: the `-> ()` call ended as %s (%s), log %s" % (d["outcome"], d.get("msg"), d.get("log")))
+    elif d["outcome"] != "returned" or d.get("value") is None:
         p.append("C01/C03: a value-returning call whose reply took %d ms ended as %s (%s) although the actor was alive and executed it: %s" % (d["ms"], d["outcome"], d.get("msg"), want_log))
     elif not want_log or want_log[0].split(":")[-1] != str(d["value"]):
         p.append("C03: returned value %s is not the one the call produced (%s)" % (d["value"], want_log))
